@@ -181,6 +181,15 @@ def run(ctx):
         jvp_check(ctx, 'get_triangle_normal', lambda t: LR.get_triangle_normal(t)[:, 1].reshape(-1), tris + rnd(2, 3, 3, lo=-0.05, hi=0.05, dtype=torch.float32), 3e-2)
         jvp_check(ctx, 'reflect/normal', lambda x: LR.reflect(torch.tensor([[0., 0, 0], [0.3, 0.2, 0.9]]), torch.stack([torch.zeros(3), x]))[:, 1],
                   torch.tensor([0.1, 0.2, 1.0]) + rnd(3, lo=-0.1, hi=0.1, dtype=torch.float32), 2e-2)
+        # every tensor argument ALONE: the rays constant, only the surface normal requires grad (optimising a surface under fixed illumination)
+        if abs(float((dvec * nvec).sum())) > 0.3:
+            jvp_check(ctx, 'refract/normal_only', lambda x: LR.refract(torch.stack([torch.zeros(3, dtype=D), dvec]).unsqueeze(0),
+                                                                       torch.stack([torch.zeros(3, dtype=D), x]).unsqueeze(0), 1.0, 1.5, error=1e-9)[0, 1],
+                      nvec.clone(), 1e-5, 1e-6,
+                      (lambda xs, vs: dual_model(ctx, names, 'refract', (1.0 / 1.5, 1e-9))(dvec.tolist() + xs, [0.0, 0.0, 0.0] + vs)) if ctx.drv_ok else None)
+            jvp_check(ctx, 'refract/normal_only/batch', lambda x: LR.refract(torch.stack([torch.zeros(2, 3, dtype=D), torch.stack([dvec, dvec])], dim=1),
+                                                                             torch.stack([torch.zeros(2, 3, dtype=D), x], dim=1), 1.0, 1.33, error=1e-9)[:, 1],
+                      torch.stack([nvec, nvec * 1.5 + torch.tensor([0.05, 0.0, 0.0], dtype=D)]), 1e-5)
         jvp_check(ctx, 'create_ray_from_two_points', lambda x: LR.create_ray_from_two_points(x[0], x[1])[:, 1], rnd(2, 3, lo=-2, hi=2, dtype=torch.float32), 2e-2)
         tri = torch.tensor([[0., 0, 2], [1.5, 0.1, 2.2], [0.2, 1.4, 1.9]], dtype=torch.float32)
         jvp_check(ctx, 'intersect_w_triangle/ray', lambda x: torch.cat([LR.intersect_w_triangle(torch.stack([x[0], x[1] / x[1].norm()]), tri)[0][:, 0].reshape(-1),
